@@ -797,6 +797,25 @@ func (c18) RunCase(c fw.Case, env *fw.Env) *fw.CaseResult {
 			if wr.Status != 200 {
 				s.res.Note("non-finite write answered %d %s", wr.Status, trimBody(wr.Body))
 			}
+			// the same in nested maps, arrays and through the update path; whatever is accepted must be
+			// readable afterwards (the reads below), whatever is refused must be refused with a 4xx
+			mc.Do("POST", "/v2/collections/nanf/points", map[string]any{"points": []any{
+				map[string]any{"_id": "0c0c0c0c-0000-4000-8000-000000000004", "n": int64(4), "f": 2.5},
+				map[string]any{"_id": "0c0c0c0c-0000-4000-8000-000000000005", "n": int64(5), "nested": map[string]any{"deep": map[string]any{"x": math.Inf(-1)}}},
+			}})
+			mc.Do("POST", "/v2/collections/nanf/points", map[string]any{"points": []any{
+				map[string]any{"_id": "0c0c0c0c-0000-4000-8000-000000000006", "n": int64(6), "arr": []any{1.0, math.NaN(), "x"}},
+			}})
+			for _, body := range []map[string]any{
+				{"points": []any{map[string]any{"_id": "0c0c0c0c-0000-4000-8000-000000000004", "extra": float32(math.NaN())}}},
+				{"points": []any{map[string]any{"_id": "0c0c0c0c-0000-4000-8000-000000000004", "nested": map[string]any{"v": []any{math.Inf(1)}}}}},
+			} {
+				ur := mc.Do("PUT", "/v2/collections/nanf/points", body)
+				if ur.Status >= 500 {
+					s.res.Violate("5xx", "C18:5xx:v2-update-nanf:"+errClassStr(string(ur.Body)), fmt.Sprintf("update carrying a non-finite number answered %d %s", ur.Status, trimBody(ur.Body)), nil)
+				}
+			}
+			wr.Status = 200 // always read back: points 3 and 4 are stored in any case
 			if wr.Status == 200 {
 				for _, sel := range [][]any{{"*"}, {"n"}, {"extra"}, {"f"}} {
 					t := c18tmpl{name: "v2-search-nanf", method: "POST", path: "/v2/collections/nanf/points/search", body: map[string]any{"query": map[string]any{"property": "n", "integer": map[string]any{"value": 0, "operator": "greaterThan"}}, "select": sel, "limit": 10}}
